@@ -24,14 +24,18 @@ CHECKS = {
              "fifth case in float64 mode) is judged by TLC: grid "
              "values, filters and constraints at the logged state, Q(choice) = max Q, value = max Q. Thorough: MC_Sim checks the "
              "implementation-shaped forward step of spec/Simulate.tla against the declarative rule for every model of "
-             "spec/Family.tla and every two-agent batch (MC_Sim_d3.cfg = the repaired defect D3 is found by TLC).",
+             "spec/Family.tla and every two-agent batch (MC_Sim_d3.cfg = the repaired defect D3 is found by TLC). Strata added from "
+             "seeded changes include: lower-bound constraints, near-ties, 17 x 17 continuous choice grids, models in which the period "
+             "enters only through an auxiliary function (T >= 3), beta outside [0, 1], default-valued parameters, and 12 agents "
+             "embedded in a batch of 70001 (kept rows judged one by one).",
         note="Trusted: TLC, spec/Bellman.tla (Q, FeasMax), MDL code generator. Ties are spec nondeterminism; values compared "
              "up to a rounding-level tolerance, never arg-max identity.",
         technique="TLC trace validation of recorded simulation rows against the declarative decision rule", ref="§6 C02"),
     "C03": dict(
         text="TLC validates every consecutive pair of rows of every simulated agent against the model's transition functions "
              "(exact equality for deterministic states; positive probability in the signature-order row for stochastic states; "
-             "period-0 rows equal the supplied initial states). Thorough: MC_Panel model-checks the whole forward loop (Decide, "
+             "period-0 rows equal the supplied initial states); a stratum has stochastic states that are not among their own "
+             "dependencies (every agent's label must have positive probability in the row of its OWN variables). Thorough: MC_Panel model-checks the whole forward loop (Decide, "
              "SplitKeys, Draw, Advance, Frame composed from Simulate, Keys and Pipeline) over several periods and every stochastic "
              "branch against the declarative transition relation Pipeline!SimStepOK.",
         note="Trusted: TLC, Mdl!CallF, Bellman!ShockRow. One-hot transition rows make the stochastic clause exact.",
@@ -45,18 +49,22 @@ CHECKS = {
         technique="TLC trace validation of shapes and entries under the specified layout, enumerated declaration orders", ref="§6 C05"),
     "C06": dict(
         text="For on-grid agents TLC checks that every reported value equals the entry of the observed solve array at the index "
-             "the layout contract gives, and that solve_and_simulate returns the same frame as solve followed by simulate.",
+             "the layout contract gives, and that solve_and_simulate returns the same frame as solve followed by simulate (also on "
+             "shared function objects with parameters updated in place, with unnormalised transition rows, and for models in which "
+             "the period enters only through an auxiliary function, where the decision clauses of C02 are judged too).",
         note="Code-vs-code relation judged by TLC through the specification's layout; no tolerance on states/choices.",
         technique="TLC trace validation of relations between recorded solve arrays and simulation frames", ref="§6 C06"),
     "C07": dict(
         text="TLC compares the returned template with Mdl!Template (keys, per-function parameter sets, transition-array shapes "
-             "in signature order) and validates solve/simulate output of models with colliding parameter names and permuted "
-             "stochastic dependencies against semantics that route parameters by function name.",
+             "in signature order) and validates solve/simulate output of models with colliding parameter names, permuted "
+             "stochastic dependencies, two stochastic states, keyword-only and default-valued own parameters, aliased function "
+             "objects and auxiliary functions of auxiliary functions against semantics that route parameters by function name.",
         note="Trusted: TLC, Mdl!Template/CallF. Routing is decided behaviourally through C01-C03 clauses.",
         technique="TLC trace validation of template structure + behavioural routing through the reference semantics", ref="§6 C07"),
     "C13": dict(
         text="TLC checks row count, (period, initial_state_id) index in period-major order, the column set, _period and every "
-             "additional-target column (recomputed by the specification at the row) for 1/2/5 agents and T in 1..3. Thorough: "
+             "additional-target column (recomputed by the specification at the row) for 1/2/5 agents and T in 1..3, and for 12 agents "
+             "kept from panels of 20011 / 70001 agents (whole-frame row count checked too). Thorough: "
              "MC_Panel (the forward loop as one state machine) establishes PanelComplete for every model of spec/Family.tla, every "
              "two-agent batch and every stochastic branch, terminates under weak fairness, and refutes the agent-major variant.",
         note="Trusted: TLC, Pipeline!PanelIndex/PanelColumns/TargetVal.",
@@ -64,7 +72,9 @@ CHECKS = {
     "C08": dict(
         text="For deterministic models a reference batch and its permutation, a shuffled subset, a batch with duplicated agents "
              "and the batch with reversed initial_states key order are simulated; TLC (TracePipeline!RelSimFail) requires "
-             "identical per-agent paths; for stochastic models identical period-0 decisions and values. Thorough: MC_Sim invariant "
+             "identical per-agent paths; for stochastic models identical period-0 decisions and values. Further batches: one agent of "
+             "every restricted state alone, all agents of one restricted state, and 12 agents alone vs. embedded in batches of 20011 / "
+             "70001 agents. Thorough: MC_Sim invariant "
              "AgentIndependent (an agent's result in a two-agent batch equals its result alone) on spec/Simulate.tla.",
         note="Code-vs-code relation judged by TLC on recorded frames; batches of up to 8 (thorough 64) agents.",
         technique="TLC trace validation of relations between recorded simulation frames of transformed batches", ref="§6 C08"),
@@ -93,7 +103,8 @@ CHECKS = {
         text="get_function_representation is evaluated on spaces covering every feasibility pattern of 1-3 restricted states that "
              "occurs among the TLC-enumerated masks, random unrestricted discrete axes and 0-3 continuous axes (linear and log), at "
              "points on nodes, inside cells and outside linear ranges; TLC compares every value with TraceUnits!FuncRep (indexer "
-             "look-up + discrete look-up + Interp!MapCoordinates at Interp!Coord).",
+             "look-up + discrete look-up + Interp!MapCoordinates at Interp!Coord); every third case stores -inf / +inf / NaN in "
+             "discrete cells that no evaluation point addresses; every fifth runs in mixed precision.",
         note="Exact equality for linear grids with dyadic points; 2^-9 relative with a log axis (TLA+ works from exact nodes).",
         technique="TLC-enumerated feasibility patterns + replay + TLC trace validation against the interpolation semantics", ref="§6 C14"),
     "C15": dict(
@@ -105,7 +116,8 @@ CHECKS = {
     "C16": dict(
         text="MC_Grids enumerates all 5780 combinations of abstract input classes of the continuous grid constructors with the "
              "specification's decision (must reject / laws of the array form); each is replayed into LinspaceGrid/LogspaceGrid, plus "
-             "seeded valid specifications (1-100 points, six orders of magnitude) and 15 category classes for DiscreteGrid; TLC judges "
+             "seeded valid specifications (1-100 points, six orders of magnitude), 120 with bounds in a special relation (symmetric, "
+             "zero, reciprocal) and 27 category classes for DiscreteGrid (anomalies at the ends and in the interior); TLC judges "
              "outcome class and the array laws on normalised observations.",
         note="Exhaustive over the class combinations; float32-unresolvable grids are a listed known finding, not generated.",
         technique="TLC enumeration of an input-class decision table + replay + TLC trace validation", ref="§6 C16"),
@@ -118,7 +130,7 @@ CHECKS = {
     "C12": dict(
         text="MC_Lifecycle: the life-cycle state machine (grids -> Model -> get_lcm_function -> first solve -> first simulate) "
              "rejects every one of the 2^8 sets of violated rules at an early stage and completes otherwise; the same rule sets "
-             "are applied to 4 base templates and replayed (stage reached and exception class recorded at every step, error path "
+             "are applied to 6 base templates (one with a single period; invalid grids drawn from 21 specifications) and replayed (stage reached and exception class recorded at every step, error path "
              "included); TLC (Lifecycle!LifecycleClause) accepts only early rejection with the three allowed error classes. "
              "Converse: a catalogue of accepted-but-unusual shapes, accepted instances of every template and random accepted models "
              "must solve, simulate and re-simulate. Liveness (weak fairness): every life cycle ends; an accepted one completes.",
@@ -146,7 +158,8 @@ CHECKS = {
     "C11": dict(
         text="Pairs (model, transformed model) for the four laws (a u + b, beta = 0 vs truncated model, horizons T and T+k, one-hot "
              "stochastic vs deterministic): TLC checks V2[t2] = a V1[t1] + b sum beta^k on the recorded solutions - for small models "
-             "through the layout and also on the specification's own solutions, for models with 65-513 x 2 states entry by entry.",
+             "through the layout and also on the specification's own solutions, for models with 65-513 x 2 states (one with more than "
+             "2^16 nodes) entry by entry; affine pairs also on integer-typed utilities and dead-end states.",
         note="Large models: tolerance 2^-8 (1+|v|); they are far beyond what the reference semantics can enumerate, only the relation is checked.",
         technique="TLC trace validation of algebraic relations between recorded solutions (small: plus reference semantics)", ref="§6 C11"),
     "C04": dict(
